@@ -39,8 +39,11 @@ CLASSES = ["finite", "nan", "pinf", "ninf", "negative", "huge", "mixed"]
 
 
 def bound_text(tier, seed):
-    return ("lengths 0..5 + 2 seed-chosen (<=300; <=40 in quick), 7 value classes, options <= 2 deviations; "
-            "grids 1x1,1x3,3x1,2x2,3x3 x 5 flow patterns")
+    if tier == "thorough":
+        return ("lengths 0..8 + 3 seed-chosen (<= 1100), 7 value classes, options <= 3 deviations; "
+                "grids 1x1,1x3,3x1,2x2,3x3 x 7 flow patterns")
+    return ("lengths 0..5 + 2 seed-chosen (<= 40), 7 value classes, options <= 2 deviations; "
+            "grids 1x1,1x3,3x1,2x2,3x3 x 7 flow patterns")
 
 
 def big_lengths(seed, tier):
@@ -50,6 +53,8 @@ def big_lengths(seed, tier):
 
 
 def lengths(seed, tier):
+    if tier == "thorough":
+        return [0, 1, 2, 3, 4, 5, 6, 7, 8] + big_lengths(seed, tier) + [1000 + 7 * (seed % 13)]
     return [0, 1, 2, 3, 4, 5] + big_lengths(seed, tier)
 
 
@@ -80,8 +85,14 @@ def arr2(n, m, cls, shift=0):
     return arr(n * m, cls, shift).reshape(n, m)
 
 
+_CUR_TIER = ["quick"]
+
+
 def devs(defaults, alts, k=2):
-    """all option dicts differing from `defaults` in <= k coordinates; alts: name -> list of alternative values"""
+    """all option dicts differing from `defaults` in <= k coordinates (k + 1 in the thorough tier);
+    alts: name -> list of alternative values"""
+    if _CUR_TIER[0] == "thorough":
+        k = k + 1
     names = sorted(alts)
     yield dict(defaults)
     for r in range(1, k + 1):
@@ -465,6 +476,11 @@ class E_lstsq:
 
 # ------------------------------------------------------------------ gis
 GSHAPES = [(1, 1), (1, 3), (3, 1), (2, 2), (3, 3)]
+
+
+def gshapes():
+    return GSHAPES + ([(1, 2), (2, 3), (4, 4), (1, 9)] if _CUR_TIER[0] == "thorough" else [])
+
 FPATTERNS = ["sinks", "offgrid", "cycle2", "invalid", "seed", "east", "converge"]
 
 
@@ -508,7 +524,7 @@ def cellnum(tag, ntot):
 class E_gridcells:
     @staticmethod
     def space(seed, tier):
-        for sh in GSHAPES:
+        for sh in gshapes():
             for cls in CLASSES:
                 for n in (0, 1, 2, 5):
                     for w in (2, 1, 3):
@@ -582,7 +598,7 @@ class E_pip:
 class E_catchment:
     @staticmethod
     def space(seed, tier):
-        for sh in GSHAPES:
+        for sh in gshapes():
             for pat in FPATTERNS:
                 for outlet in CELLS + ["mid"]:
                     for o in devs({"nval": "ntot+3", "inlets": "none"},
@@ -629,7 +645,7 @@ class E_derived:
     """intersect / voronoi / boundary on cell sets injected or delineated"""
     @staticmethod
     def space(seed, tier):
-        for sh in GSHAPES:
+        for sh in gshapes():
             ntot = sh[0] * sh[1]
             for area in ("empty", "one", "all", "delineated", "invalid", "dup"):
                 for npts in (0, 1, 2, ntot + 2):
@@ -673,7 +689,7 @@ class E_derived:
 class E_acc:
     @staticmethod
     def space(seed, tier):
-        for sh in GSHAPES:
+        for sh in gshapes():
             for pat in FPATTERNS:
                 for o in devs({"nprint": 100, "maxcells": -1, "field": "none"},
                               {"nprint": [1, 0, -1, 2 ** 62], "maxcells": [0, 1, 2, -5, 10 ** 6], "field": ["ones", "nan", "huge", "wrongshape"]}, 2):
@@ -808,6 +824,7 @@ def preload():
 
 def units(tier, seed):
     us = []
+    _CUR_TIER[0] = tier
     for name in sorted(ENTRIES):
         cases = list(ENTRIES[name].space(seed, tier))
         # chunks of <= 400 cases
@@ -819,6 +836,7 @@ def units(tier, seed):
 
 
 def unit_cases(unit):
+    _CUR_TIER[0] = unit["tier"]
     cases = list(ENTRIES[unit["entry"]].space(unit["seed"], unit["tier"]))
     s = unit["chunk"] * unit["size"]
     return cases[s:s + unit["size"]]
